@@ -213,15 +213,35 @@ Proof.
   intros Hc Hs. unfold pl_cmdline, wrap, is_zombie. rewrite Hc, Hs. reflexivity.
 Qed.
 
-(* ---------------------------------------------------------------- the refuted full-strength statement *)
+(* ---------------------------------------------------------------- the code as it is now: no exclusion *)
+Lemma cmdline_argv_now : forall argv zombie,
+  argv <> [] -> forallb nul_free argv = true -> single_space argv = false ->
+  pl_cmdline now (view_cmd (KArgv argv) zombie) = Val argv.
+Proof. intros argv z H1 H2 H3. apply cmdline_argv; auto. intros H; discriminate H. Qed.
+
+Lemma cmdline_single_arg_now : forall a zombie,
+  nul_free a = true -> pl_cmdline now (view_cmd (KArgv [a]) zombie) = Val (split_on 32 a).
+Proof. intros a z H1. apply cmdline_single_arg; auto. intros H; discriminate H. Qed.
+
+Lemma cmdline_title_now : forall ws t zombie,
+  wf_cmd (KTitle ws t) = true -> pl_cmdline now (view_cmd (KTitle ws t) zombie) = Val ws.
+Proof. intros ws t z H1. apply cmdline_title; auto. intros H; discriminate H. Qed.
+
+(* ---------------------------------------------------------------- the code before commit 46827e5: refuted *)
 Lemma cmdline_cr_refuted :
   exists argv, argv <> [] /\ forallb nul_free argv = true /\ single_space argv = false /\
-               pl_cmdline cur (view_cmd (KArgv argv) false) <> Val argv.
+               pl_cmdline before_fix (view_cmd (KArgv argv) false) <> Val argv.
 Proof.
   exists [bs "printf"; [97; 13; 10; 98]].
   split; [congruence|]. split; [reflexivity|]. split; [reflexivity|].
   vm_compute. congruence.
 Qed.
+
+Lemma cmdline_argv_before_fix : forall argv zombie,
+  argv <> [] -> forallb nul_free argv = true -> single_space argv = false ->
+  forallb no_cr argv = true ->
+  pl_cmdline before_fix (view_cmd (KArgv argv) zombie) = Val argv.
+Proof. intros argv z H1 H2 H3 H4. apply cmdline_argv; auto. Qed.
 
 (* hypotheses of the theorems above are satisfiable by non-trivial inputs *)
 Example cmdline_argv_example :
